@@ -7,6 +7,7 @@ import (
 	"encoding/json"
 	"fmt"
 	"sort"
+	"sync"
 
 	"gopkg.in/typ.v4/sync2"
 	"verif/harness/core"
@@ -340,7 +341,46 @@ func has(s []int, x int) bool {
 	return false
 }
 
+// stress: uncontrolled goroutines on two sets, for the race-detector build (tier "race").
+func stress(c *core.Ctx) {
+	for round := 0; round < 12; round++ {
+		c.Begin(Case{Kind: "race-stress"})
+		sets := [2]*sync2.Set[int]{{}, {}}
+		var wg sync.WaitGroup
+		for g := 0; g < 8; g++ {
+			wg.Add(1)
+			rng := core.NewRand(c.Seed*1000 + uint64(round*16+g))
+			go func() {
+				defer wg.Done()
+				for i := 0; i < 800; i++ {
+					s, v := sets[rng.Intn(2)], rng.Intn(3)
+					switch rng.Intn(8) {
+					case 0, 1:
+						s.Add(v)
+					case 2, 3:
+						s.Remove(v)
+					case 4:
+						s.Has(v)
+					case 5:
+						s.Len()
+					case 6:
+						s.AddSet(sets[rng.Intn(2)])
+					default:
+						s.RemoveSet(sets[rng.Intn(2)])
+					}
+				}
+			}()
+		}
+		wg.Wait()
+		c.Count("race_stress_rounds")
+	}
+}
+
 func run(c *core.Ctx) {
+	if c.Tier == "race" {
+		stress(c)
+		return
+	}
 	mk := func(op string, v int) CallSpec { return CallSpec{Op: op, V: v} }
 	// 1. all schedules with <= P pre-emptions of two-thread programs on one value, over internal layouts
 	var battery [][2][]CallSpec
